@@ -935,7 +935,20 @@ fn format_subexpression(
             output.push_str(" ? ");
             format_subexpression(expr_true, prec, OperatorSide::Middle, output, context)?;
             output.push_str(" : ");
+            // An assignment in the last operand must be parenthesised
+            // The RSSL parser reads a ? b : c = d as (a ? b : c) = d
+            let false_is_assignment = matches!(
+                &expr_false.node,
+                ast::Expression::BinaryOperation(op, _, _)
+                    if get_expression_precedence(&expr_false.node)? == prec && *op != ast::BinOp::Sequence
+            );
+            if false_is_assignment {
+                output.push('(');
+            }
             format_subexpression(expr_false, prec, OperatorSide::Right, output, context)?;
+            if false_is_assignment {
+                output.push(')');
+            }
         }
         ast::Expression::ArraySubscript(expr_object, expr_index) => {
             format_subexpression(expr_object, prec, OperatorSide::Left, output, context)?;
